@@ -165,6 +165,38 @@ fn elf_batch(start: u32, count: usize) -> Result<(), String> {
     Ok(())
 }
 
+/// `batches` consecutive ELF batches of 4096 raw values in a forked child, so
+/// that a fault while classifying (the property says classification is
+/// total) is a verdict about the library and not the end of the worker.
+fn elf_batches_in_child(start: u32, batches: usize, last_count: usize) -> Result<(), (u32, String)> {
+    let r = mb2_sandbox::run_child(|| {
+        let mut s = start;
+        for b in 0..batches {
+            let c = if b + 1 == batches { last_count } else { 4096 };
+            match mb2_model::panics::catch(|| elf_batch(s, c)) {
+                Some(Ok(())) => {}
+                Some(Err(m)) => return format!("E {s} {m}").into_bytes(),
+                None => return format!("E {s} ELF iteration panicked on a well-formed table").into_bytes(),
+            }
+            s = s.wrapping_add(c as u32);
+        }
+        b"OK".to_vec()
+    });
+    match r {
+        mb2_sandbox::ChildResult::Done(b) if b == b"OK" => Ok(()),
+        mb2_sandbox::ChildResult::Done(b) => {
+            let t = String::from_utf8_lossy(&b).into_owned();
+            let mut it = t.splitn(3, ' ');
+            it.next();
+            let at = it.next().and_then(|x| x.parse().ok()).unwrap_or(start);
+            Err((at, it.next().unwrap_or("").to_string()))
+        }
+        mb2_sandbox::ChildResult::Signal(sig) => Err((start, format!("classifying the ELF raw types of a well-formed table starting at {start:#x} crashed the process (signal {sig})"))),
+        mb2_sandbox::ChildResult::Timeout => Err((start, "INCONCLUSIVE watchdog".into())),
+        mb2_sandbox::ChildResult::Broken(c) => Err((start, format!("INCONCLUSIVE child broke ({c})"))),
+    }
+}
+
 fn framebuffer_all() -> Result<(), String> {
     for b in 0..=511u32 {
         // with and without colour-info bytes behind the fixed part
@@ -239,17 +271,16 @@ fn run(ctx: &Ctx, rep: &mut SubReport) {
         rep.evaluations += hi - lo;
         let mut s = lo;
         while s < hi {
-            let c = ((hi - s) as usize).min(4096);
-            match mb2_model::panics::catch(|| elf_batch(s as u32, c)) {
-                Some(Ok(())) => {}
-                Some(Err(m)) => {
-                    fail(rep, "elf", s as u32, m);
-                    return;
+            let c = ((hi - s) as usize).min(4096 * 256);
+            let batches = (c + 4095) / 4096;
+            let last = c - (batches - 1) * 4096;
+            if let Err((at, m)) = elf_batches_in_child(s as u32, batches, last) {
+                if m.starts_with("INCONCLUSIVE") {
+                    rep.inconclusive.push(m);
+                } else {
+                    fail(rep, "elf", at, m);
                 }
-                None => {
-                    fail(rep, "elf", s as u32, "ELF iteration panicked on a well-formed table".into());
-                    return;
-                }
+                return;
             }
             s += c as u64;
         }
@@ -299,14 +330,14 @@ fn run(ctx: &Ctx, rep: &mut SubReport) {
             if !ctx.mine(st as u64 / 7) {
                 continue;
             }
-            match mb2_model::panics::catch(|| elf_batch(st, 4096)) {
-                Some(Ok(())) => rep.evaluations += 4096,
-                Some(Err(m)) => {
-                    fail(rep, "elf", st, m);
+            match elf_batches_in_child(st, 1, 4096) {
+                Ok(()) => rep.evaluations += 4096,
+                Err((_, m)) if m.starts_with("INCONCLUSIVE") => {
+                    rep.inconclusive.push(m);
                     return;
                 }
-                None => {
-                    fail(rep, "elf", st, "ELF iteration panicked on a well-formed table".into());
+                Err((at, m)) => {
+                    fail(rep, "elf", at, m);
                     return;
                 }
             }
@@ -321,7 +352,7 @@ fn replay(v: &Value) -> Result<(), String> {
     let x = v["v"].as_u64().unwrap_or(0) as u32;
     match v["what"].as_str().unwrap_or("") {
         "laws" => mb2_model::panics::catch(|| laws(x, true)).unwrap_or_else(|| Err("panicked".into())),
-        "elf" => mb2_model::panics::catch(|| elf_batch(x, 4096)).unwrap_or_else(|| Err("panicked".into())),
+        "elf" => elf_batches_in_child(x, 1, 4096).map_err(|e| e.1),
         "framebuffer" => mb2_model::panics::catch(framebuffer_all).unwrap_or_else(|| Err("panicked".into())),
         _ => Ok(()),
     }
